@@ -231,6 +231,8 @@ type session struct {
 	stream       string
 	idx          int
 	deadReported bool
+
+	zombieReported bool
 }
 
 func newSession(c *core.Ctx, p *prog, cfg dcfg) (*session, error) {
@@ -667,6 +669,71 @@ func (s *session) reportDead() {
 	s.c.Violation("dbg-lock:held-for-good", "a debugger command never returns: it is parked on the debugger's lock and every goroutine inside the debugger is parked too, so the suspended threads can never be resumed", s.stream, s.idx, d)
 }
 
+// stopZombie finds a thread that StopThreads released and that parked again
+// before it ended, with no command issued since: the broadcast of the stop
+// reached it (dbg.resumed after the stopthreads broadcast), its last hook event
+// is a later dbg.beforewait, no continue / stop command started after that
+// wait began, and the scheduler reports its goroutine in sync.Cond.Wait. The
+// stop was the last thing anybody intended to tell this thread, so it stays
+// where it is ("stopping all threads releases every suspended one" - and the
+// release must not be undone by the thread's own termination).
+func (s *session) stopZombie() *stuckInfo {
+	if !s.stopped {
+		return nil
+	}
+	hs := s.m.hookSnapshot()
+	var stopSeq int64 = -1
+	for _, h := range hs {
+		if h.point == "dbg.broadcast" && h.kind == "stopthreads" {
+			stopSeq = h.seq
+		}
+	}
+	if stopSeq < 0 {
+		return nil
+	}
+	s.m.mu.Lock()
+	conts := append([]contRec(nil), s.m.conts...)
+	stops := append([]contRec(nil), s.m.stops...)
+	s.m.mu.Unlock()
+	released := map[uint64]bool{}
+	for _, h := range hs {
+		if h.seq > stopSeq && h.point == "dbg.resumed" {
+			released[h.tid] = true
+		}
+	}
+	for tid := range released {
+		h, ok := lastWait(hs, tid)
+		if !ok || h.point != "dbg.beforewait" || h.seq < stopSeq {
+			continue
+		}
+		later := false
+		for _, c := range conts {
+			if c.tid == tid && c.c0 > h.seq {
+				later = true
+			}
+		}
+		for _, c := range stops {
+			if c.c0 > h.seq {
+				later = true
+			}
+		}
+		if later || sched.GoStates()[h.g] != "sync.Cond.Wait" {
+			continue
+		}
+		if h2, _ := lastWait(s.m.hookSnapshot(), tid); h2.seq != h.seq {
+			continue
+		}
+		si := &stuckInfo{tid: tid, g: h.g, site: h.site, line: h.line, l: h.seq, kind: "stopthreads", cmd: "stopthreads", class: "C"}
+		for _, e := range hs {
+			if e.seq >= stopSeq-6 {
+				si.trace = append(si.trace, fmt.Sprintf("%d g%d %s tid=%d line=%d %s%s", e.seq, e.g, e.point, e.tid, e.line, e.site, e.kind))
+			}
+		}
+		return si
+	}
+	return nil
+}
+
 func (s *session) progress() int64 {
 	return atomic.LoadInt64(&s.m.nvisits) + atomic.LoadInt64(&s.m.nhooks)
 }
@@ -719,6 +786,20 @@ func (s *session) drive(until []chan struct{}, onStuck func(si *stuckInfo)) stri
 			continue
 		}
 		idle := time.Since(lastT)
+		if idle >= look && !s.zombieReported {
+			if z := s.stopZombie(); z != nil {
+				s.zombieReported = true
+				s.stucks = append(s.stucks, *z)
+				s.c.Event("stuck.resuspended-after-stopthreads."+z.site, 1)
+				s.c.Violation("stop:resuspended-after-stopthreads:"+z.site, fmt.Sprintf("StopThreads released thread %d, but the thread suspended again (site %s, line %d) before it ended and no command is left to wake it: it stays suspended for good", z.tid, z.site, z.line), s.stream, s.idx,
+					map[string]interface{}{"program": s.x.p.src, "config": s.cfg.String(), "hooks": z.trace})
+				// outside help so that the case can be torn down
+				s.stopThreads()
+				lastT = time.Now()
+				look = lookFirst
+				continue
+			}
+		}
 		if idle >= look {
 			look *= 2 // back off: looking is expensive (full goroutine dump)
 			if si := s.findStuck(); si != nil {
